@@ -10,7 +10,7 @@
    ([2 <= qsize c]: Combine refuses fewer than two signatures). *)
 From Coq Require Import Permutation.
 From HS Require Import Base.Prelude Quorum.QuorumModel Collect.VoteModel Collect.VoteProofs
-  Collect.VoteQuorumProofs Collect.KauriModel Collect.KauriProofs.
+  Collect.VoteQuorumProofs Collect.VoteAvailProofs Collect.KauriModel Collect.KauriProofs.
 Close Scope Z_scope.
 
 (* ---- all-to-one collector ---- *)
@@ -62,6 +62,27 @@ Theorem C09_qc_iff_quorum_fetch : forall c, c_patched c = true -> forall b, 2 <=
     /\ quorum_arrived c b es)).
 Proof. exact qc_iff_quorum_fetch. Qed.
 Print Assumptions C09_qc_iff_quorum_fetch.
+
+(* Block availability over time ([run_av]: every stimulus comes with what the other replicas can deliver on a fetch
+   at that moment — fetchable from the start, never, only from some point on, not any more later).  For EVERY
+   sequence: a certificate for b exists exactly when, by the account [settle] gives of the stimuli alone, b has
+   become known and a quorum of distinct valid votes has been counted.  [settle]: a vote counts at once when b is
+   known; otherwise it waits for the next proposal and counts if that proposal is b's own or b can be fetched at
+   that moment; if it cannot, what waited is dropped — and votes arriving after b became fetchable count again. *)
+Theorem C09_qc_iff_quorum_av : forall c, c_patched c = true -> forall b, 2 <= qsize c ->
+  forall store high es st' outs,
+  Forall (cons b) store -> (high < b_view b)%N -> Forall (av_ok b) es ->
+  run_av c (init store high) es = (st', outs) ->
+  let kn0 := match local_get store (b_hash b) with Some _ => true | None => false end in
+  (emitted_for b outs <-> (fst (settle c b kn0 false [] es) = true /\ Qr c (snd (settle c b kn0 false [] es)))).
+Proof. exact qc_iff_quorum_av. Qed.
+Print Assumptions C09_qc_iff_quorum_av.
+
+Theorem C09_emitted_verifies_av : forall c, c_patched c = true ->
+  forall store high es st' outs, run_av c (init store high) es = (st', outs) ->
+  forall o q, In o outs -> In q o -> qc_verifies c (st_store st') q = true.
+Proof. exact emitted_verifies_av. Qed.
+Print Assumptions C09_emitted_verifies_av.
 
 (* the same per stimulus: the certificate first appears exactly at the first stimulus that completes
    the condition, and not before *)
@@ -181,6 +202,18 @@ Example C09_fetch_nonvacuous :
   snd (run c (init [mkB 1 0]%N 0%N) es) = [[]; []; []; [mkQC 2 5 [ex_G 1 2; ex_G 2 2; ex_G 3 2]]]%N /\
   becomes_known ex_b false false es = true /\ local_get (c_remote c) (b_hash ex_b) = Some ex_b.
 Proof. repeat split; vm_compute; reflexivity. Qed.
+
+(* availability over time: an early vote waits for block 2, a foreign proposal releases it while nobody can deliver
+   the block (the vote is dropped), the block becomes fetchable, three more votes wait and a second foreign proposal
+   releases them through the fetch: the certificate appears there, from those three votes *)
+Example C09_avail_nonvacuous :
+  let c := mkCfg [1;2;3;4]%N [] true in
+  let es := [([], EVote (mkVote 2 [ex_G 1 2])); ([], EPropose (mkB 9 4));
+             ([ex_b], EVote (mkVote 2 [ex_G 2 2])); ([ex_b], EVote (mkVote 2 [ex_G 3 2])); ([ex_b], EVote (mkVote 2 [ex_G 4 2]));
+             ([ex_b], EPropose (mkB 8 6))]%N in
+  snd (run_av c (init [mkB 1 0]%N 0%N) es) = [[]; []; []; []; []; [mkQC 2 5 [ex_G 2 2; ex_G 3 2; ex_G 4 2]]]%N /\
+  settle c ex_b false false [] es = (true, [2;3;4]%N).
+Proof. split; vm_compute; reflexivity. Qed.
 
 (* Kauri: node 1 (root of n = 4, own vote) merges {2} then {3,4}: the second one completes the quorum *)
 Example C09_kauri_nonvacuous :
